@@ -1837,12 +1837,16 @@ PIP_Solution_Node::Tableau
         j_mismatch = j1.index();
         goto end_loop;
       }
+      ++j1;
     }
   }
 
  end_loop:
+  // NOTE: the iterators j0 and j1 may be past-the-end or refer to
+  // different columns: read the two coefficients of column j_mismatch.
   return (j_mismatch != num_params)
-    && column_lower(s, mapping, basis, s_0, col_0, s_1, col_1, *j0, *j1);
+    && column_lower(s, mapping, basis, s_0, col_0, s_1, col_1,
+                    t_0.get(j_mismatch), t_1.get(j_mismatch));
 }
 
 void
